@@ -9,6 +9,8 @@ Leg T: real streams (N <= 40, batch size <= 50, many seeds; sequential, repeated
 """
 import itertools
 
+import numpy as np
+
 from vf import bat
 from vf import traces as vtraces
 from vf.core import Machinery
@@ -24,8 +26,10 @@ def real_stream(fedjax, n, bs, epochs, steps, drop, skip, seed, variant, chain, 
   before = bat.checksum(raw)
   ref = bat.apply_chain(chain, raw)
   ds = fedjax.ClientDataset(raw, fedjax.BatchPreprocessor(bat.CHAINS[chain]))
+  # a seed is any integer a caller has at hand: a Python int, or a NumPy integer scalar (e.g. drawn per client from a RandomState)
+  seed_obj = seed if seed is None else (seed, np.int64(seed), np.int32(seed % 2**31), np.uint32(seed % 2**32))[(n + bs) % 4]
   hp = fedjax.ShuffleRepeatBatchHParams(batch_size=bs, num_epochs=None if epochs == NONE else epochs,
-                                        num_steps=None if steps == NONE else steps, drop_remainder=drop, seed=seed,
+                                        num_steps=None if steps == NONE else steps, drop_remainder=drop, seed=seed_obj,
                                         skip_shuffle=skip)
   view = ds.shuffle_repeat_batch(hp)
 
